@@ -144,6 +144,9 @@ theorem getPentagon_length (c : Cell) (p : Poly) (h : getPentagon c = .ok p) :
   by_cases ho : c.origin ≥ origins.length
   · rewrite [if_pos ho] at h; cases h
   rewrite [if_neg ho] at h
+  generalize segmentToQuintant c.segment (originAt c.origin) = qo at h
+  obtain ⟨q, o⟩ := qo
+  dsimp only at h
   by_cases h1 : c.res = Gen.FIRST_HILBERT_RESOLUTION - 1
   · rewrite [if_pos h1] at h
     cases Outcome.ok.inj h
@@ -305,5 +308,51 @@ theorem cellToBoundary_ok (id : Nat) (closed : Bool) (segs : Option Nat) (ring :
       refine ⟨p, first, rest, hp, hlen, ?_⟩
       simp only at h
       exact (Outcome.ok.inj h).symm
+
+/-- the closed ring is the open ring with the open ring's *last* point repeated in front (the first
+point is pushed at the end and the whole list is then reversed) -/
+def closeRing (r : List (Float × Float)) : List (Float × Float) :=
+  match r.getLast? with
+  | some x => x :: r
+  | none => r
+
+theorem cellToBoundary_closed_eq (id : Nat) (segs : Option Nat) :
+    cellToBoundary id true segs = (cellToBoundary id false segs >>= fun r => .ok (closeRing r)) := by
+  unfold cellToBoundary
+  by_cases h0 : id = Gen.WORLD_CELL
+  · rewrite [if_pos h0, if_pos h0]; rfl
+  rewrite [if_neg h0, if_neg h0]
+  cases deserialize id with
+  | err e => rfl
+  | panic k => rfl
+  | ok c =>
+    simp only [Outcome.bind_ok]
+    by_cases hr : c.res = -1
+    · rewrite [if_pos hr, if_pos hr]; rfl
+    rewrite [if_neg hr, if_neg hr]
+    cases getPentagon c with
+    | err e => rfl
+    | panic k => rfl
+    | ok p =>
+      simp only [Outcome.bind_ok]
+      cases mapOutcome' (fun v => dodecaInverse v c.origin)
+          (polySplitEdges p (match segs with
+            | some n => n
+            | none => max 1 (2 ^ (max (Gen.DEFAULT_SEGMENTS_BASE - c.res) 0).toNat))) with
+      | err e => rfl
+      | panic k => rfl
+      | ok sph =>
+        simp only [Outcome.bind_ok]
+        cases normalizeLongitudes (sph.map (fun x => toLonLat x.1 x.2)) with
+        | err e => rfl
+        | panic k => rfl
+        | ok nb =>
+          simp only [Outcome.bind_ok]
+          cases nb with
+          | nil => rfl
+          | cons first rest =>
+            simp only [Outcome.bind_ok, if_true, closeRing]
+            refine congrArg Outcome.ok ?_
+            simp [List.reverse_append]
 
 end A5
